@@ -167,3 +167,10 @@ package lib
 
 //@ lib func bytes.NewBufferString(s string) (b *bytes.Buffer)
 //@   ensures b != nil && fresh(b) && b.$n >= 0
+
+// sort.Search: only the range of the result is stated here (and that the search itself writes nothing: the predicates
+// handed to it in this code base are read-only closures); what it means for a particular predicate is stated (as an
+// assumption) where it is called
+//@ lib func sort.Search(n int, f func(int) bool) (found int)
+//@   pure
+//@   ensures 0 <= found && (n >= 0 ==> found <= n) && (n < 0 ==> found == 0)
